@@ -110,6 +110,75 @@ theorem sdiv_zero (a : RVal α) : a.sdiv 0 = .error .zeroDiv := by
 theorem neg_scales_X (a : RVal α) : a.neg = { a with x := -a.x } := by
   simp [RVal.neg]
 
+/-- **Re-basing does not change what a reaction does to a stream.**  `copy('wt')` / `copy('mol')` of a
+normalised reaction (molecular weights nonzero) acts on molar flows exactly like the original; this is what
+lets `a + b` with operands of different bases (where `b` is first re-based to `a`'s basis) be compared with
+applying `a` and `b` to the same stream. -/
+theorem rebase_agrees_on_streams (mw : List α) (a c : RVal α) (b : BArg) (n : List α)
+    (hmw : ∀ m ∈ mwFlat mw a.ph, m ≠ 0) (hl : a.v.length = n.length)
+    (hlm : (mwFlat mw a.ph).length = n.length)
+    (ha : a.v.getD a.ridx 0 = -1) (h : a.copyB mw b = .ok c) :
+    applyStream (mwFlat mw c.ph) c.basis (react c.v c.ridx c.x) n =
+      applyStream (mwFlat mw a.ph) a.basis (react a.v a.ridx a.x) n := by
+  have hr := lt_of_getD_neg_one a.v a.ridx ha
+  have hrn : a.ridx < n.length := hl ▸ hr
+  have hrm : a.ridx < (mwFlat mw a.ph).length := hlm ▸ hrn
+  have har : a.v[a.ridx] = -1 := by rw [← getD_of_lt a.v a.ridx hr]; exact ha
+  have hmr : (mwFlat mw a.ph)[a.ridx] ≠ 0 := hmw _ (List.getElem_mem hrm)
+  have hnr : n.getD a.ridx 0 = n[a.ridx] := getD_of_lt n a.ridx hrn
+  unfold RVal.copyB at h
+  split at h
+  · cases h; rfl
+  · simp at h
+  · -- to 'mol'
+    split at h
+    · cases h; rfl
+    · rename_i hb
+      have hbw : a.basis = .wt := by cases hab : a.basis <;> simp_all
+      simp only [rebaseV, rescale_def] at h
+      split at h; · simp at h
+      rename_i v' hv
+      split at hv; · simp at hv
+      have hv' := Except.ok.inj hv
+      have := Except.ok.inj h; subst this
+      subst hv'
+      simp only [applyStream, hbw]
+      have hq : (List.zipWith (· / ·) a.v (mwFlat mw a.ph)).getD a.ridx 0 = a.v[a.ridx] / (mwFlat mw a.ph)[a.ridx] := by
+        rw [getD_of_lt _ _ (by simp [hr, hrm])]; simp
+      have hnm : (List.zipWith (· * ·) n (mwFlat mw a.ph)).getD a.ridx 0 = n[a.ridx] * (mwFlat mw a.ph)[a.ridx] := by
+        rw [getD_of_lt _ _ (by simp [hrn, hrm])]; simp
+      apply List.ext_getElem
+      · simp [react, hl, hlm]
+      · intro i h1 h2
+        have him : i < (mwFlat mw a.ph).length := by simp [react, hl, hlm] at h1; omega
+        have hmi : (mwFlat mw a.ph)[i] ≠ 0 := hmw _ (List.getElem_mem him)
+        simp only [react, List.getElem_zipWith, List.getElem_map, hq, hnm, hnr, har]
+        field_simp
+  · -- to 'wt'
+    split at h
+    · cases h; rfl
+    · rename_i hb
+      have hbm : a.basis = .mol := by cases hab : a.basis <;> simp_all
+      simp only [rebaseV, rescale_def] at h
+      split at h; · simp at h
+      rename_i v' hv
+      split at hv; · simp at hv
+      have hv' := Except.ok.inj hv
+      have := Except.ok.inj h; subst this
+      subst hv'
+      simp only [applyStream, hbm]
+      have hq : (List.zipWith (· * ·) a.v (mwFlat mw a.ph)).getD a.ridx 0 = a.v[a.ridx] * (mwFlat mw a.ph)[a.ridx] := by
+        rw [getD_of_lt _ _ (by simp [hr, hrm])]; simp
+      have hnm : (List.zipWith (· * ·) n (mwFlat mw a.ph)).getD a.ridx 0 = n[a.ridx] * (mwFlat mw a.ph)[a.ridx] := by
+        rw [getD_of_lt _ _ (by simp [hrn, hrm])]; simp
+      apply List.ext_getElem
+      · simp [react, hl, hlm]
+      · intro i h1 h2
+        have him : i < (mwFlat mw a.ph).length := by simp [react, hl, hlm] at h1; omega
+        have hmi : (mwFlat mw a.ph)[i] ≠ 0 := hmw _ (List.getElem_mem him)
+        simp only [react, List.getElem_zipWith, List.getElem_map, hq, hnm, hnr, har]
+        field_simp
+
 /-! ## Operands are spared, results are fresh -/
 
 /-- **operands_unchanged.**  Every operation that is not an in-place form (`+ - * / neg copy backwards`,
@@ -496,6 +565,97 @@ theorem setBasis_frame (s s' : Store α) (a k : Nat) (b : BArg) (h : s.step (.se
     obtain ⟨rfl, rfl⟩ := h
     refine ⟨rfl, rfl, fun id hid => by simp [List.getElem?_set_ne (Ne.symm hid)], ra, rxn?_of_getElem? hra, by simp,
       fun aid haid => by simp [List.getElem?_set_ne (Ne.symm haid)]⟩
+
+/-! ## The agreement clauses at the level of store operations -/
+
+theorem applyArr_of_valOf (s : Store α) (k : Nat) (c : RVal α) (n : List α) (h : s.valOf k = .ok c) :
+    s.applyArr k n = .ok (react c.v c.ridx c.x n) := by
+  cases hr : s.rxn? k with
+  | error e => rw [valOf_error hr] at h; exact absurd h (by simp)
+  | ok r =>
+    rw [valOf_of_rxn? hr] at h
+    have := Except.ok.inj h; subst this
+    simp [Store.applyArr, rxn?_ok hr]
+
+/-- `c = a + b` executed on objects of the store: calling `c` on a feed gives what `a` and `b` give in
+parallel (equal basis label, phases and reactant; both normalised; `X_a + X_b ≠ 0`). -/
+theorem add_step_is_parallel (s s' : Store α) (a b k : Nat) (ra rb : Rxn α) (n : List α)
+    (hra : s.rxn? a = .ok ra) (hrb : s.rxn? b = .ok rb)
+    (hbasis : rb.basis = ra.basis) (hph : ra.ph = rb.ph) (hr : ra.ridx = rb.ridx)
+    (hla : (s.val ra).v.length = n.length) (hlb : (s.val rb).v.length = n.length)
+    (ha : (s.val ra).v.getD ra.ridx 0 = -1) (hb : (s.val rb).v.getD rb.ridx 0 = -1)
+    (hx : (s.val ra).x + (s.val rb).x ≠ 0)
+    (h : s.step (.add a (some b)) = .ok (s', k)) :
+    s'.applyArr k n = .ok (parallel [((s.val ra).v, ra.ridx, (s.val ra).x), ((s.val rb).v, rb.ridx, (s.val rb).x)] n) := by
+  obtain ⟨c, hc, hs, hk⟩ := step_pure_ok s s' _ k _ rfl h
+  simp only [valOf_of_rxn? hra, Store.optVal, valOf_of_rxn? hrb, bind, Except.bind, pure, Except.pure] at hc
+  have hv : s'.valOf k = .ok c := by rw [hs, hk]; exact newRxn_valOf s c
+  rw [applyArr_of_valOf s' k c n hv]
+  congr 1
+  exact add_is_parallel s.mw (s.val ra) (s.val rb) c n hbasis hph hr hla hlb ha hb hx hc
+
+/-! ## `ParallelReaction.reduce` -/
+
+/-- **reduce_acts_like_set.**  Merging the members of a parallel set that share a reactant (`reduce`, in
+whatever order the reactant keys are visited, provided each key is visited once and none is missed) gives a
+set that acts on every feed exactly like the original set.  Members are normalised on their reactants and
+have the length of the feed; the theorem holds whenever `reduce` returns (it raises when a running conversion
+sum inside a group vanishes). -/
+theorem reduce_acts_like_set (mw : List α) (ms vs : List (RVal α)) (order : List Nat) (n : List α)
+    (basis : Basis) (ph : Nat)
+    (hall : ∀ a ∈ ms, a.v.getD a.ridx 0 = -1 ∧ a.v.length = n.length ∧ a.basis = basis ∧ a.ph = ph)
+    (hnd : order.Nodup) (hcov : ∀ a ∈ ms, a.ridx ∈ order)
+    (h : reduceVals mw ms order = .ok vs) :
+    parallel (triples vs) n = parallel (triples ms) n := by
+  obtain ⟨hvl, hvs⟩ := reduceVals_dAt mw ms n basis ph hall order vs h
+  obtain ⟨hl1, hg1⟩ := parallel_getD vs n hvl
+  obtain ⟨hl2, hg2⟩ := parallel_getD ms n (fun a ha => (hall a ha).2.1)
+  apply ext_getD _ _ (by rw [hl1, hl2])
+  intro i
+  rw [hg1 i, hg2 i, hvs i, sum_partition _ order hnd ms hcov]
+  rfl
+
+/-- the same at store level: the object returned by `set.reduce()` applied to a feed gives what the set gives -/
+theorem reduce_step_acts (s s' : Store α) (hwf : s.WF) (sid k : Nat) (order : List Nat) (t : RSet) (n : List α)
+    (ht : s.set? sid = .ok t)
+    (hall : ∀ a ∈ s.setVals t, a.v.getD a.ridx 0 = -1 ∧ a.v.length = n.length)
+    (h : s.step (.reduce sid order) = .ok (s', k)) :
+    s'.applyArr k n = s.applyArr sid n := by
+  simp only [Store.step, Store.pureOp, Store.reduceOp, ht] at h
+  split at h; · simp at h
+  rename_i hguard
+  split at h; · simp at h
+  rename_i vs hvs
+  simp only [Except.ok.injEq, Prod.mk.injEq] at h
+  obtain ⟨rfl, rfl⟩ := h
+  simp only [Bool.not_eq_true', Bool.not_eq_false, Bool.and_eq_true, List.all_eq_true, decide_eq_true_eq] at hguard
+  obtain ⟨⟨_, hcov⟩, hnd⟩ := hguard
+  obtain ⟨_, _, _, hrl⟩ := set_wf_of_ok hwf ht
+  have hsid := set?_ok ht
+  simp only [Store.applyArr, List.getElem?_concat_length, hsid]
+  congr 1
+  have hms : ∀ a ∈ s.setVals t, a.v.getD a.ridx 0 = -1 ∧ a.v.length = n.length ∧ a.basis = t.basis ∧ a.ph = t.ph := by
+    intro a ha
+    obtain ⟨h1, h2⟩ := hall a ha
+    simp only [Store.setVals, List.mem_map] at ha
+    obtain ⟨i, _, rfl⟩ := ha
+    exact ⟨h1, h2, rfl, rfl⟩
+  have hcov' : ∀ a ∈ s.setVals t, a.ridx ∈ order := by
+    intro a ha
+    simp only [Store.setVals, List.mem_map, List.mem_range] at ha
+    obtain ⟨i, hi, rfl⟩ := ha
+    have hir : i < t.ridxs.length := hrl ▸ hi
+    exact hcov _ (by simp only; rw [getD_of_lt' _ _ _ hir]; exact List.getElem_mem hir)
+  have key := reduce_acts_like_set s.mw (s.setVals t) vs order n t.basis t.ph hms hnd hcov' hvs
+  simp only [triples] at key
+  rw [← key]
+  congr 1
+  simp only [Store.setVals, List.map_map, List.length_map, List.length_range]
+  apply List.ext_getElem
+  · simp
+  · intro j h1 h2
+    have hj : j < vs.length := by simpa using h2
+    simp [Store.arr, List.getD, hj, List.getElem?_append_right]
 
 /-! ## Non-vacuity: concrete rational instances meet the hypotheses (evaluated by the kernel; these are
 tests of satisfiability on samples, not part of the proofs above) -/
